@@ -307,6 +307,13 @@ class Equalizer(object):
         """
         Creates and start new player process, ready to take playback tasks
         """
+        # Every process gets its own fresh pair of queues: a task that was queued for a previous process, or the late
+        # result of a process that was given up on, must never reach the next recording, and a process that was killed
+        # while polling the tasks queue leaves that queue's reader lock acquired forever
+        self._compare_tasks.close()
+        self._compare_results.close()
+        self._compare_tasks = mp.Queue()
+        self._compare_results = mp.Queue()
         self._compare_process = mp.Process(
             target=self._playback_process_target, name='Playback runner')
         self._compare_process.start()
